@@ -239,4 +239,350 @@ theorem moveSorted_sorted (key : Nat → Int) (added : Nat) (xs : List Nat)
       · omega
       · exact ha.1 b ((List.dropWhile_sublist _).subset hb)
 
+
+/-! ### hlist (igris/datastruct/hlist.h) -/
+
+@[simp] theorem HHeap.read_write (h : HHeap) (loc loc' : Loc) (v : Option Nat) :
+    (h.write loc v).read loc' = if loc' = loc then v else h.read loc' := by
+  cases loc <;> cases loc' <;> simp [HHeap.write, HHeap.read]
+@[simp] theorem HHeap.pprev_write (h : HHeap) (loc : Loc) (v : Option Nat) : (h.write loc v).pprev = h.pprev := by
+  cases loc <;> rfl
+@[simp] theorem HHeap.read_setPprev (h : HHeap) (n : Nat) (v : Option Loc) (loc : Loc) :
+    (h.setPprev n v).read loc = h.read loc := by cases loc <;> rfl
+@[simp] theorem HHeap.pprev_setPprev (h : HHeap) (n : Nat) (v : Option Loc) (y : Nat) :
+    (h.setPprev n v).pprev y = if y = n then v else h.pprev y := rfl
+theorem HHeap.next_eq_read (h : HHeap) (n : Nat) : h.next n = h.read (.nodeNext n) := rfl
+
+/-- from location `loc` the chain runs through the nodes `xs` and ends in `e`
+(`none` = NULL); every node's `pprev` is the location that points at it -/
+def HChain (h : HHeap) : Loc → List Nat → Option Nat → Prop
+  | loc, [], e => h.read loc = e
+  | loc, x :: xs, e => h.read loc = some x ∧ h.pprev x = some loc ∧ HChain h (.nodeNext x) xs e
+
+/-- the location in which a chain through `xs` that starts at `loc` ends -/
+def lastLoc : Loc → List Nat → Loc
+  | loc, [] => loc
+  | _, x :: xs => lastLoc (.nodeNext x) xs
+
+theorem lastLoc_append (loc : Loc) (pre : List Nat) (x : Nat) : lastLoc loc (pre ++ [x]) = .nodeNext x := by
+  induction pre generalizing loc with
+  | nil => rfl
+  | cons a as ih => simp [lastLoc, ih]
+
+theorem lastLoc_mem (loc : Loc) (xs : List Nat) : lastLoc loc xs = loc ∨ ∃ x ∈ xs, lastLoc loc xs = .nodeNext x := by
+  induction xs generalizing loc with
+  | nil => left; rfl
+  | cons a as ih =>
+    right
+    rcases ih (.nodeNext a) with h1 | ⟨x, hx, h1⟩
+    · exact ⟨a, by simp, by simpa [lastLoc] using h1⟩
+    · exact ⟨x, by simp [hx], by simpa [lastLoc] using h1⟩
+
+/-- a chain is determined by what is stored in its start location, in the `next`
+fields of its nodes and in their `pprev` fields -/
+theorem HChain_congr (h h' : HHeap) : ∀ (xs : List Nat) (loc : Loc) (e : Option Nat),
+    h'.read loc = h.read loc → (∀ x ∈ xs, h'.read (.nodeNext x) = h.read (.nodeNext x)) →
+    (∀ x ∈ xs, h'.pprev x = h.pprev x) → (HChain h' loc xs e ↔ HChain h loc xs e)
+  | [], loc, e, h0, _, _ => by simp [HChain, h0]
+  | x :: xs, loc, e, h0, h1, h2 => by
+    simp only [HChain, h0, h2 x (by simp)]
+    rw [HChain_congr h h' xs (.nodeNext x) e (h1 x (by simp)) (fun y hy => h1 y (by simp [hy]))
+      (fun y hy => h2 y (by simp [hy]))]
+
+/-- cut a chain at a node -/
+theorem HChain_append_cons (h : HHeap) : ∀ (pre : List Nat) (loc : Loc) (y : Nat) (ys : List Nat) (e : Option Nat),
+    HChain h loc (pre ++ y :: ys) e ↔
+      HChain h loc pre (some y) ∧ h.pprev y = some (lastLoc loc pre) ∧ HChain h (.nodeNext y) ys e
+  | [], loc, y, ys, e => by simp [HChain, lastLoc]
+  | x :: pre, loc, y, ys, e => by
+    simp only [List.cons_append, HChain, lastLoc, HChain_append_cons h pre (.nodeNext x) y ys e, and_assoc]
+
+/-- the chain's end value is what its last location holds -/
+theorem HChain_read_last (h : HHeap) : ∀ (pre : List Nat) (loc : Loc) (e : Option Nat),
+    HChain h loc pre e → h.read (lastLoc loc pre) = e
+  | [], _, _, hc => hc
+  | x :: pre, _, e, hc => HChain_read_last h pre (.nodeNext x) e hc.2.2
+
+/-- storing into the last location of a chain changes where it ends, nothing else -/
+theorem HChain_set_end (h : HHeap) : ∀ (pre : List Nat) (loc : Loc) (e e' : Option Nat),
+    HChain h loc pre e → pre.Nodup → (∀ x ∈ pre, loc ≠ .nodeNext x) →
+    HChain (h.write (lastLoc loc pre) e') loc pre e'
+  | [], loc, e, e', _, _, _ => by simp [HChain, lastLoc]
+  | x :: pre, loc, e, e', hc, hnd, h0 => by
+    simp only [HChain] at hc
+    have hx : x ∉ pre := (List.nodup_cons.mp hnd).1
+    have hne : loc ≠ lastLoc (.nodeNext x) pre := by
+      rcases lastLoc_mem (.nodeNext x) pre with e1 | ⟨z, hz, e1⟩
+      · rw [e1]; exact h0 x (by simp)
+      · rw [e1]; exact h0 z (by simp [hz])
+    simp only [HChain, lastLoc, HHeap.read_write, hne, if_false, HHeap.pprev_write]
+    refine ⟨hc.1, hc.2.1, HChain_set_end h pre (.nodeNext x) e e' hc.2.2 (List.nodup_cons.mp hnd).2 ?_⟩
+    intro z hz e2; injection e2 with e2; exact hx (e2 ▸ hz)
+
+/-- an hlist with head `l` and contents `xs` -/
+structure HList (h : HHeap) (l : Nat) (xs : List Nat) : Prop where
+  nodup : xs.Nodup
+  chain : HChain h (.headFirst l) xs none
+
+theorem hwalk_chain (h : HHeap) : ∀ (xs : List Nat) (loc : Loc) (fuel : Nat), HChain h loc xs none →
+    xs.length < fuel → hwalk h fuel (h.read loc) = xs
+  | [], loc, fuel, hc, hf => by
+    simp only [HChain] at hc
+    match fuel, hf with
+    | f + 1, _ => simp [hc, hwalk]
+  | x :: xs, loc, fuel, hc, hf => by
+    simp only [HChain] at hc
+    match fuel, hf with
+    | f + 1, hf =>
+      rw [hc.1]; simp only [hwalk, HHeap.next_eq_read]
+      rw [hwalk_chain h xs (.nodeNext x) f hc.2.2 (by simp at hf; omega)]
+
+/-- `hlist_for_each` visits exactly the contents, in order -/
+theorem hlistToList_list {h : HHeap} {l : Nat} {xs : List Nat} (r : HList h l xs) (fuel : Nat)
+    (hf : xs.length < fuel) : hlistToList h fuel l = xs :=
+  hwalk_chain h xs (.headFirst l) fuel r.chain hf
+
+/-- what `hlist_add_next(n, L)` leaves untouched -/
+theorem hlistAddNext_frame (h : HHeap) (n : Nat) (L : Loc) (hL : L ≠ .nodeNext n) :
+    (∀ loc, loc ≠ L → loc ≠ .nodeNext n → (hlistAddNext h n L).read loc = h.read loc) ∧
+    (hlistAddNext h n L).read L = some n ∧
+    (hlistAddNext h n L).read (.nodeNext n) = h.read L ∧
+    (∀ z, z ≠ n → h.read L ≠ some z → (hlistAddNext h n L).pprev z = h.pprev z) ∧
+    (∀ y, h.read L = some y → y ≠ n → (hlistAddNext h n L).pprev y = some (.nodeNext n)) ∧
+    (h.read L ≠ some n → (hlistAddNext h n L).pprev n = some L) := by
+  have hL' : Loc.nodeNext n ≠ L := fun e => hL e.symm
+  unfold hlistAddNext
+  simp only [HHeap.read_setPprev, HHeap.next_eq_read, HHeap.read_write, if_true]
+  cases hr : h.read L with
+  | none =>
+    simp only [HHeap.read_write, HHeap.read_setPprev, HHeap.pprev_write, HHeap.pprev_setPprev, if_true]
+    refine ⟨?_, trivial, by simp [hL'], ?_, by simp, by simp⟩
+    · intro loc h1 h2; simp [h1, h2]
+    · intro z hz _; simp [hz]
+  | some y =>
+    simp only [HHeap.read_write, HHeap.read_setPprev, HHeap.pprev_write, HHeap.pprev_setPprev, if_true]
+    refine ⟨?_, trivial, by simp [hL'], ?_, ?_, ?_⟩
+    · intro loc h1 h2; simp [h1, h2]
+    · intro z hz hzy
+      have : z ≠ y := fun e => hzy (by rw [e])
+      simp [hz, this]
+    · intro y' e _; injection e with e; subst e; simp
+    · intro hyn
+      have : n ≠ y := fun e => hyn (by rw [e])
+      simp [this]
+
+/-- GENERAL INSERTION: `hlist_add_next(n, loc)` where `loc` is the location in
+which the chain through `pre` ends (the head's `first` field, or the `next`
+field of the last node of `pre`) -/
+theorem hlistAddNext_chain (h : HHeap) (n : Nat) (loc0 : Loc) (pre post : List Nat)
+    (hc : HChain h loc0 (pre ++ post) none) (hnd : (pre ++ post).Nodup) (hn : n ∉ pre ++ post)
+    (h0 : loc0 ≠ .nodeNext n) (h0' : ∀ x ∈ pre ++ post, loc0 ≠ .nodeNext x) :
+    HChain (hlistAddNext h n (lastLoc loc0 pre)) loc0 (pre ++ n :: post) none := by
+  have hnpre : n ∉ pre := fun hm => hn (by simp [hm])
+  have hnpost : n ∉ post := fun hm => hn (by simp [hm])
+  have hndpre : pre.Nodup := (List.nodup_append.mp hnd).1
+  have hL : lastLoc loc0 pre ≠ .nodeNext n := by
+    rcases lastLoc_mem loc0 pre with e | ⟨x, hx, e⟩
+    · rw [e]; exact h0
+    · rw [e]; intro e2; injection e2 with e2; exact hnpre (e2 ▸ hx)
+  have hLpost : ∀ y ∈ post, lastLoc loc0 pre ≠ .nodeNext y := by
+    intro y hy
+    rcases lastLoc_mem loc0 pre with e | ⟨x, hx, e⟩
+    · rw [e]; exact h0' y (by simp [hy])
+    · rw [e]; intro e2; injection e2 with e2; subst e2
+      exact (List.nodup_append.mp hnd).2.2 x hx x hy rfl
+  obtain ⟨f1, f2, f3, f4, f5, f6⟩ := hlistAddNext_frame h n (lastLoc loc0 pre) hL
+  -- the prefix: unchanged except for its end
+  have prefix_ok : ∀ e, HChain h loc0 pre e → h.read (lastLoc loc0 pre) = e → (∀ z ∈ pre, e ≠ some z) →
+      HChain (hlistAddNext h n (lastLoc loc0 pre)) loc0 pre (some n) := by
+    intro e hce hre hez
+    have s1 := HChain_set_end h pre loc0 e (some n) hce hndpre (fun x hx => h0' x (by simp [hx]))
+    -- compare the real result with `h.write L (some n)` on what the prefix reads
+    refine (HChain_congr _ _ pre loc0 (some n) ?_ ?_ ?_).mpr s1
+    · by_cases e1 : loc0 = lastLoc loc0 pre
+      · rw [← e1] at f2 ⊢; simp [f2]
+      · rw [f1 loc0 e1 h0]; simp [e1]
+    · intro x hx
+      have hxn : Loc.nodeNext x ≠ .nodeNext n := by
+        intro e2; injection e2 with e2; exact hnpre (e2 ▸ hx)
+      by_cases e1 : Loc.nodeNext x = lastLoc loc0 pre
+      · rw [e1, f2]; simp
+      · rw [f1 _ e1 hxn]; simp [e1]
+    · intro x hx
+      have hxn : x ≠ n := fun e2 => hnpre (e2 ▸ hx)
+      rw [f4 x hxn (by rw [hre]; exact hez x hx)]; simp
+  cases post with
+  | nil =>
+    simp only [List.append_nil] at hc hnd hn h0'
+    have hre := HChain_read_last h pre loc0 none hc
+    rw [HChain_append_cons]
+    refine ⟨prefix_ok none hc hre (by simp), f6 (by simp [hre]), ?_⟩
+    simp only [HChain]; rw [f3, hre]
+  | cons y ys =>
+    obtain ⟨c1, c2, c3⟩ := (HChain_append_cons h pre loc0 y ys none).mp hc
+    have hre := HChain_read_last h pre loc0 (some y) c1
+    have hyn : y ≠ n := fun e => hnpost (by simp [e])
+    have hypre : ∀ z ∈ pre, (some y : Option Nat) ≠ some z := by
+      intro z hz e; injection e with e; subst e
+      exact (List.nodup_append.mp hnd).2.2 y hz y (by simp) rfl
+    have hndpost : (y :: ys).Nodup := (List.nodup_append.mp hnd).2.1
+    rw [HChain_append_cons]
+    refine ⟨prefix_ok (some y) c1 hre hypre, f6 (by rw [hre]; simp [hyn]), ?_⟩
+    simp only [HChain]
+    refine ⟨by rw [f3, hre], f5 y hre hyn, ?_⟩
+    refine (HChain_congr h _ ys (.nodeNext y) none ?_ ?_ ?_).mpr c3
+    · exact f1 _ (fun e => hLpost y (by simp) e.symm) (by intro e; injection e with e; exact hyn e)
+    · intro z hz
+      refine f1 _ (fun e => hLpost z (by simp [hz]) e.symm) ?_
+      intro e; injection e with e; exact hnpost (by simp [← e, hz])
+    · intro z hz
+      refine f4 z (fun e => hnpost (by simp [← e, hz])) ?_
+      rw [hre]; intro e; injection e with e
+      exact (List.nodup_cons.mp hndpost).1 (e ▸ hz)
+
+/-- what `hlist_del(n)` leaves untouched, for a node whose `pprev` is `pp` -/
+theorem hlistDel_frame (h : HHeap) (n : Nat) (pp : Loc) (hp : h.pprev n = some pp) :
+    (∀ loc, loc ≠ pp → (hlistDel h n).read loc = h.read loc) ∧
+    (hlistDel h n).read pp = h.read (.nodeNext n) ∧
+    (∀ z, h.read (.nodeNext n) ≠ some z → (hlistDel h n).pprev z = h.pprev z) ∧
+    (∀ y, h.read (.nodeNext n) = some y → (hlistDel h n).pprev y = some pp) := by
+  unfold hlistDel
+  simp only [hp, HHeap.next_eq_read]
+  cases hr : h.read (.nodeNext n) with
+  | none =>
+    simp only [HHeap.read_write, HHeap.pprev_write, if_true]
+    exact ⟨fun loc h1 => by simp [h1], hr, by simp, by simp⟩
+  | some y =>
+    simp only [HHeap.read_write, HHeap.read_setPprev, HHeap.pprev_write, HHeap.pprev_setPprev, if_true]
+    refine ⟨fun loc h1 => by simp [h1], hr, ?_, ?_⟩
+    · intro z hz
+      have : z ≠ y := fun e => hz (by rw [e])
+      simp [this]
+    · intro y' e; injection e with e; subst e; simp
+
+/-- GENERAL REMOVAL: `hlist_del(n)` of a chain member -/
+theorem hlistDel_chain (h : HHeap) (n : Nat) (loc0 : Loc) (pre post : List Nat)
+    (hc : HChain h loc0 (pre ++ n :: post) none) (hnd : (pre ++ n :: post).Nodup)
+    (h0' : ∀ x ∈ pre ++ n :: post, loc0 ≠ .nodeNext x) :
+    HChain (hlistDel h n) loc0 (pre ++ post) none := by
+  obtain ⟨c1, c2, c3⟩ := (HChain_append_cons h pre loc0 n post none).mp hc
+  obtain ⟨f1, f2, f3, f4⟩ := hlistDel_frame h n (lastLoc loc0 pre) c2
+  have hndpre : pre.Nodup := (List.nodup_append.mp hnd).1
+  have hndpost : (n :: post).Nodup := (List.nodup_append.mp hnd).2.1
+  have hdisj : ∀ a ∈ pre, ∀ b ∈ n :: post, a ≠ b := (List.nodup_append.mp hnd).2.2
+  have hnpre : n ∉ pre := fun hm => hdisj n hm n (by simp) rfl
+  have hLpost : ∀ y ∈ n :: post, lastLoc loc0 pre ≠ .nodeNext y := by
+    intro y hy
+    rcases lastLoc_mem loc0 pre with e | ⟨x, hx, e⟩
+    · rw [e]; exact h0' y (by simp at hy ⊢; right; exact hy)
+    · rw [e]; intro e2; injection e2 with e2; subst e2; exact hdisj x hx x hy rfl
+  have hnext : h.read (.nodeNext n) = post.head? := by
+    cases post with
+    | nil => simpa [HChain] using c3
+    | cons y ys => simp only [HChain] at c3; simpa using c3.1
+  -- the prefix, now ending in n's successor
+  have prefix_ok : HChain (hlistDel h n) loc0 pre (post.head?) := by
+    have s1 := HChain_set_end h pre loc0 (some n) (post.head?) c1 hndpre (fun x hx => h0' x (by simp [hx]))
+    refine (HChain_congr _ _ pre loc0 _ ?_ ?_ ?_).mpr s1
+    · by_cases e1 : loc0 = lastLoc loc0 pre
+      · rw [← e1] at f2 ⊢; simp [f2, hnext]
+      · rw [f1 loc0 e1]; simp [e1]
+    · intro x hx
+      by_cases e1 : Loc.nodeNext x = lastLoc loc0 pre
+      · rw [e1, f2]; simp [hnext]
+      · rw [f1 _ e1]; simp [e1]
+    · intro x hx
+      rw [f3 x]; · simp
+      rw [hnext]
+      cases post with
+      | nil => simp
+      | cons y ys => simp only [List.head?_cons]; intro e; injection e with e; subst e
+                     exact hdisj y hx y (by simp) rfl
+  cases post with
+  | nil => simpa using prefix_ok
+  | cons y ys =>
+    simp only [HChain] at c3
+    rw [HChain_append_cons]
+    refine ⟨by simpa using prefix_ok, f4 y (by simpa using hnext), ?_⟩
+    have hyys : y ∉ ys := (List.nodup_cons.mp (List.nodup_cons.mp hndpost).2).1
+    refine (HChain_congr h _ ys (.nodeNext y) none ?_ ?_ ?_).mpr c3.2.2
+    · exact f1 _ (fun e => hLpost y (by simp) e.symm)
+    · intro z hz; exact f1 _ (fun e => hLpost z (by simp [hz]) e.symm)
+    · intro z hz
+      refine f3 z ?_
+      rw [hnext]; simp only [List.head?_cons]; intro e; injection e with e
+      exact hyys (e ▸ hz)
+
+/-! #### the API-level statements -/
+
+/-- `hlist_add_next(n, &head->first)`: push front -/
+theorem hlist_add_front {h : HHeap} {l n : Nat} {xs : List Nat} (r : HList h l xs) (hn : n ∉ xs) :
+    HList (hlistAddNext h n (.headFirst l)) l (n :: xs) := by
+  refine ⟨List.nodup_cons.mpr ⟨hn, r.nodup⟩, ?_⟩
+  have := hlistAddNext_chain h n (.headFirst l) [] xs (by simpa using r.chain) (by simpa using r.nodup)
+    (by simpa using hn) (by simp) (by simp)
+  simpa [lastLoc] using this
+
+/-- `hlist_add_next(n, &p->next)`: insert right after the member `p` -/
+theorem hlist_add_after {h : HHeap} {l n p : Nat} {pre post : List Nat} (r : HList h l (pre ++ p :: post))
+    (hn : n ∉ pre ++ p :: post) : HList (hlistAddNext h n (.nodeNext p)) l (pre ++ p :: n :: post) := by
+  have hnd : (pre ++ p :: n :: post).Nodup := by
+    have : (pre ++ p :: n :: post).Perm (n :: (pre ++ p :: post)) := by
+      have := (List.perm_middle (a := n) (l₁ := pre ++ [p]) (l₂ := post))
+      simpa using this
+    exact this.nodup_iff.mpr (List.nodup_cons.mpr ⟨hn, r.nodup⟩)
+  refine ⟨hnd, ?_⟩
+  have := hlistAddNext_chain h n (.headFirst l) (pre ++ [p]) post (by simpa using r.chain)
+    (by simpa using r.nodup) (by simpa using hn) (by simp) (by simp)
+  simpa [lastLoc_append] using this
+
+/-- `hlist_del(n)` of a member: it leaves the list, the others keep their order -/
+theorem hlist_del_member {h : HHeap} {l n : Nat} {pre post : List Nat} (r : HList h l (pre ++ n :: post)) :
+    HList (hlistDel h n) l (pre ++ post) := by
+  refine ⟨?_, hlistDel_chain h n (.headFirst l) pre post r.chain r.nodup (by simp)⟩
+  have := r.nodup
+  rw [List.nodup_append] at this ⊢
+  refine ⟨this.1, (List.nodup_cons.mp this.2.1).2, fun a ha b hb => this.2.2 a ha b (by simp [hb])⟩
+
+/-- `hlist_del` of a node initialised with `hlist_node_init` and not linked since: no effect -/
+theorem hlist_del_unlinked (h : HHeap) (n : Nat) (hp : h.pprev n = none) : hlistDel h n = h := by
+  simp [hlistDel, hp]
+
+/-- other lists are not disturbed by an insertion into / a removal from this one -/
+theorem hlist_frame_add {h : HHeap} {l2 n : Nat} {ys : List Nat} (L : Loc) (r2 : HList h l2 ys)
+    (hL : L ≠ .nodeNext n) (hn : n ∉ ys) (h1 : L ≠ .headFirst l2) (h2 : ∀ y ∈ ys, L ≠ .nodeNext y)
+    (h3 : ∀ y ∈ ys, h.read L ≠ some y) : HList (hlistAddNext h n L) l2 ys := by
+  obtain ⟨f1, _, _, f4, _, _⟩ := hlistAddNext_frame h n L hL
+  refine ⟨r2.nodup, (HChain_congr h _ ys (.headFirst l2) none ?_ ?_ ?_).mpr r2.chain⟩
+  · exact f1 _ (fun e => h1 e.symm) (by simp)
+  · intro y hy; exact f1 _ (fun e => h2 y hy e.symm) (by intro e; injection e with e; exact hn (e ▸ hy))
+  · intro y hy; exact f4 y (fun e => hn (e ▸ hy)) (h3 y hy)
+
+theorem hlist_frame_del {h : HHeap} {l l2 n : Nat} {pre post ys : List Nat} (r : HList h l (pre ++ n :: post))
+    (r2 : HList h l2 ys) (hl : l ≠ l2) (hd : ∀ y ∈ ys, y ∉ pre ++ n :: post) : HList (hlistDel h n) l2 ys := by
+  obtain ⟨c1, c2, c3⟩ := (HChain_append_cons h pre (.headFirst l) n post none).mp r.chain
+  obtain ⟨f1, _, f3, _⟩ := hlistDel_frame h n _ c2
+  have hpp : ∀ loc, (loc = .headFirst l2 ∨ ∃ y ∈ ys, loc = .nodeNext y) → loc ≠ lastLoc (.headFirst l) pre := by
+    intro loc hloc e
+    rcases lastLoc_mem (.headFirst l) pre with e1 | ⟨x, hx, e1⟩
+    · rw [e1] at e
+      rcases hloc with rfl | ⟨y, _, rfl⟩
+      · injection e with e; exact hl e.symm
+      · cases e
+    · rw [e1] at e
+      rcases hloc with rfl | ⟨y, hy, rfl⟩
+      · cases e
+      · injection e with e; subst e; exact hd y hy (by simp [hx])
+  have hnext : ∀ z ∈ ys, h.read (.nodeNext n) ≠ some z := by
+    intro z hz e
+    cases post with
+    | nil => simp [HChain] at c3; rw [c3] at e; cases e
+    | cons y0 ys0 =>
+      simp only [HChain] at c3; rw [c3.1] at e; injection e with e; subst e
+      exact hd y0 hz (by simp)
+  refine ⟨r2.nodup, (HChain_congr h _ ys (.headFirst l2) none ?_ ?_ ?_).mpr r2.chain⟩
+  · exact f1 _ (hpp _ (Or.inl rfl))
+  · intro y hy; exact f1 _ (hpp _ (Or.inr ⟨y, hy, rfl⟩))
+  · intro y hy; exact f3 y (hnext y hy)
+
 end Igris.C01
